@@ -4,6 +4,7 @@ mod c08;
 mod c09;
 mod engine;
 mod findings;
+mod hist;
 mod model;
 mod observe;
 mod props;
@@ -78,6 +79,8 @@ fn meta(prop: &str) -> Meta {
     "C06" => Meta { level: "model_checking", rule: "one case per distinct Concat/Replace term; non-trivial = >= 2 children with a mapped position (Concat) / >= 2 inner segments with a mapped survivor (Replace)", assumptions: tree_assume, workers: 16 },
     "C08" => Meta { level: "model_checking", rule: "one case per (text, map) pair; non-trivial = map has >= 2 segments and attributes >= 1 character", assumptions: tree_assume, workers: 16 },
     "C09" => Meta { level: "model_checking", rule: "one case per (generated text, outer map, original text, inner map, options); non-trivial = at least one position is attributed through the inner map", assumptions: tree_assume, workers: 16 },
+    "C05" => Meta { level: "model_checking", rule: "one state per call history (node of the prefix tree, depth <= bound); an evaluation is a history ending in an observer; non-trivial = >= 2 mutators and >= 3 calls", assumptions: &["bounded depth and alphabets (coverage.bounds)", "reference = text model of the statement + a never-observed twin built from the same mutator calls", "sorted-flag abstraction validated against ReplaceSource::verif_sorted_state after every observer"], workers: 16 },
+    "C10" => Meta { level: "model_checking", rule: "one state per call history over (original, clone) handles; evaluation = history ending in a call; non-trivial = >= 2 cache-relevant calls (map/stream/hash)", assumptions: &["bounded depth, alphabet and pool of wrapped trees (coverage.bounds)", "reference = fresh never-cached build of the wrapped tree; wrapped trees contain no CachedSource beneath a ReplaceSource", "cache contents read through the guarded hook CachedSource::verif_cache_snapshot"], workers: 16 },
     "C11" => Meta { level: "model_checking", rule: "one case per distinct term; non-trivial = some map() has >= 2 segments", assumptions: tree_assume, workers: 16 },
     _ => panic!("unknown property {prop}"),
   }
@@ -90,6 +93,8 @@ fn run_worker(prop: &str, tier: &str, k: usize, n: usize, ctx: &mut Ctx) {
     "C06" => props::c06_worker(tier, k, n, ctx),
     "C08" => c08::worker(tier, k, n, ctx),
     "C09" => c09::worker(tier, k, n, ctx),
+    "C05" => hist::c05_worker(tier, k, n, ctx),
+    "C10" => hist::c10_worker(tier, k, n, ctx),
     _ => panic!("unknown property {prop}"),
   }
 }
@@ -101,6 +106,8 @@ fn bounds(prop: &str, tier: &str) -> Value {
     "C06" => props::c06_bounds(tier),
     "C08" => c08::bounds(tier),
     "C09" => c09::bounds(tier),
+    "C05" => hist::c05_bounds(tier),
+    "C10" => hist::c10_bounds(tier),
     _ => json!({}),
   }
 }
@@ -177,6 +184,17 @@ fn replay(prop: &str, case: &Value, ctx: &mut Ctx) {
     "C09" => {
       let t: term::Term = serde_json::from_value(case.clone()).expect("case is a term");
       c09::c09_case(ctx, &t);
+    }
+    "C05" => {
+      let inner: term::Term = serde_json::from_value(case["inner"].clone()).expect("inner");
+      let ops: Vec<hist::RsOp> = serde_json::from_value(case["ops"].clone()).expect("ops");
+      hist::c05_history(ctx, &inner, &ops, true);
+    }
+    "C10" => {
+      let wrapped: term::Term = serde_json::from_value(case["wrapped"].clone()).expect("wrapped");
+      let ops: Vec<hist::CsOp> = serde_json::from_value(case["ops"].clone()).expect("ops");
+      let reference = hist::cs_reference(&wrapped);
+      hist::c10_history(ctx, &wrapped, &reference, &ops, true);
     }
     "C13" => {
       let base: term::Term = serde_json::from_value(case["base"].clone()).expect("base");
